@@ -22,6 +22,10 @@ def build(world):
     return units
 
 
+def extra_checks(world):
+    return hc.dispatch_obligations(world, PROP)
+
+
 def replay(world, ob):
     return hn.replay(PROP, world, ob)
 
